@@ -22,12 +22,12 @@ RULE = ("context flags in the 7 non-empty subsets of {control,dagger,power} (plu
         "nested argument (alone, before and after a qubit argument of the enclosing call, two levels "
         "deep), return value, assignment, subscripted argument, barrier, state_result. "
         "distinct = cells of that product")
-FLOORS = {"cells_checked": 300, "expected_reject": 50, "expected_accept": 50, "metadata_read": 50}
+FLOORS = {"generic_funcdefns_read": 8, "cells_checked": 300, "expected_reject": 50, "expected_accept": 50, "metadata_read": 50}
 
 FLAGS = ["control", "dagger", "power"]
 SUBSETS = [tuple(f for f, b in zip(FLAGS, bits) if b) for bits in itertools.product([0, 1], repeat=3)]
 PLACEMENTS = ["stmt", "if_cond", "while_cond", "nested", "nested_after_qubit", "nested_before_qubit",
-              "nested_twice", "return", "assign", "subscript", "barrier", "state_result"]
+              "nested_twice", "walrus_in_cond", "walrus_in_arg", "return", "assign", "subscript", "barrier", "state_result"]
 ARGKINDS = ["qubit", "classical", "mixed", "array"]
 FORMS = ["decorator", "with"]
 
@@ -105,6 +105,11 @@ def module(form, C, F, pl, ak):
         body = ["ok_nq(fi(d), q)"]
     elif pl == "nested_twice":
         body = ["sink(ok_nn(n, ok_nn(n, fi(q))))"]
+    elif pl == "walrus_in_cond":
+        # an assignment expression is an assignment (forbidden under dagger); no qubit is passed
+        body = ["if (k := n + 1) > 2:", "    sink(k)"]
+    elif pl == "walrus_in_arg":
+        body = ["sink((k := n + 1))"]
     elif pl == "return":
         body = ["return fb(q)"]
         ret = "bool"
@@ -135,14 +140,14 @@ def module(form, C, F, pl, ak):
 def expected(form, C, F, pl, ak):
     """(reject?, reason)"""
     C_, F_ = set(C), set(F)
-    passes_qubit = not (pl == "stmt" and ak == "classical")
+    passes_qubit = not (pl == "stmt" and ak == "classical") and not pl.startswith("walrus")
     exempt = pl in ("barrier", "state_result")
     if not C_:
         return False, "no-context"
     if "dagger" in C_:
         if pl == "while_cond":
             return True, "dagger-loop"
-        if pl == "assign":
+        if pl in ("assign", "walrus_in_cond", "walrus_in_arg"):
             return True, "dagger-assignment"
         if pl == "subscript":
             return True, "dagger-subscript"
@@ -218,6 +223,39 @@ def judge_cell(ctx, cell):
     return v, reason, rej
 
 
+def generic_metadata_probe(ctx, flags):
+    """Flagged definitions that are generic (type variable / nat variable / comptime parameter) must
+    record their flags on every FuncDefn produced for them, like non-generic ones.
+    -> (violations, number of FuncDefns read)"""
+    from hugr import ops
+
+    from guppylang_internals.tys.ty import UnitaryFlags
+
+    want = UnitaryFlags.NoFlags
+    for f in flags:
+        want |= {"control": UnitaryFlags.Control, "dagger": UnitaryFlags.Dagger, "power": UnitaryFlags.Power}[f]
+    text = (HDR + "from guppylang.std.builtins import comptime, nat\n"
+            'T = guppy.type_var("T")\nnn = guppy.nat_var("nn")\n\n'
+            f"@guppy{kw(flags)}\ndef gen_t(q: qubit, x: T) -> None:\n    pass\n\n"
+            f"@guppy{kw(flags)}\ndef gen_n(q: qubit, xs: array[int, nn]) -> None:\n    pass\n\n"
+            f"@guppy{kw(flags)}\ndef gen_c(q: qubit, k: int @comptime) -> None:\n    pass\n\n"
+            "@guppy\ndef caller(q: qubit) -> None:\n    gen_t(q, 1.5)\n    gen_n(q, array(1, 2))\n    gen_c(q, 3)\n    gen_c(q, 4)\n")
+    ld = ctx.load(text, "genmeta")
+    pkg = ld.caller.compile_function()
+    h = pkg.modules[0]
+    viols, n = [], 0
+    for node in h:
+        op = h[node].op
+        if isinstance(op, ops.FuncDefn) and op.f_name.split(".")[-1].split("$")[0].startswith(("gen_t", "gen_n", "gen_c")):
+            n += 1
+            val = h[node].metadata.get("unitary")
+            if val != want.value:
+                viols.append({"mech": "C24:unitary-metadata-mismatch:generic-definition",
+                              "witness": {"function": op.f_name, "flags": list(flags), "expected": want.value,
+                                          "observed": val}})
+    return viols, n
+
+
 def run_case(ctx, rng, idx, params, tier):
     per = params["per"]
     if params.get("exhaustive"):
@@ -241,6 +279,10 @@ def run_case(ctx, rng, idx, params, tier):
             viols.append(v)
     counters["metadata_read"] = META["n"]
     META["n"] = 0
+    if idx < len(SUBSETS):
+        gv, gn = generic_metadata_probe(ctx, SUBSETS[idx])
+        viols += gv
+        counters["generic_funcdefns_read"] = gn
     seen = set()
     uniq = [v for v in viols if not (v["mech"] in seen or seen.add(v["mech"]))]
     rec = {"status": "violated" if uniq else "held", "fp": f"case{idx}", "counters": counters,
